@@ -687,6 +687,12 @@ impl<'c, K: CtrlKind> MultiDispatchController<'c> for HMulti<K> {
         ctx.log(Ev::Plan, self.id, 0);
         ctx.runs.lock().unwrap()[self.id] += 1;
         drop(data);
+        match ctx.beh_of(self.id) {
+            Beh::PanicRun(n) if n == u16::MAX || n == ctx.cur_dispatch() => {
+                panic!("{} run sys={}", PANIC_MARK, self.id);
+            }
+            _ => {}
+        }
         sched_point();
         self.times as usize
     }
